@@ -1078,6 +1078,11 @@ class Connection(object):
         # queue the decoder function with the request
         # this allows us to inject custom functions per request to encode, decode messages
         self._requests[request_id] = (cb, decoder, result_metadata)
+        if self.is_defunct or self.is_closed:
+            # the connection failed between the checks above and the registration: its pending
+            # requests may already have been errored, so this one would never be answered
+            if self._requests.pop(request_id, None) is not None:
+                raise ConnectionShutdown("Connection to %s is closed" % self.endpoint)
         msg = encoder(msg, request_id, self.protocol_version, compressor=self.compressor,
                       allow_beta_protocol_version=self.allow_beta_protocol_version)
 
